@@ -11,7 +11,7 @@ from ..common import Report, parse_args
 CFG = "INIT Init\nNEXT Next\nINVARIANT Holds\nCHECK_DEADLOCK FALSE\n"
 
 
-def run_family(prop: str, which: str, argv: List[str], doms: str, nontrivial, rule: str, level_text: str) -> int:
+def run_family(prop: str, which: str, argv: List[str], doms: str, nontrivial, rule: str, level_text: str, hook: Optional[str] = None) -> int:
     args = parse_args(prop, argv)
     rep = Report(prop, args.tier, args.seed, "model_checking")
     if args.replay:
@@ -23,7 +23,7 @@ def run_family(prop: str, which: str, argv: List[str], doms: str, nontrivial, ru
         inputs = rb.domain_inputs(args.tier, args.seed, doms)
     d = rb.workdir(prop)
     try:
-        res = rb.record_domain(inputs, d, jobs=args.jobs, shards=args.jobs, stages=True)
+        res = rb.record_domain(inputs, d, jobs=args.jobs, shards=args.jobs, stages=True, hook=hook)
         verdicts = evaluate(res, which, args.jobs)
         account(rep, res, verdicts, nontrivial, rule, inputs)
     finally:
